@@ -72,6 +72,7 @@ type connRec struct {
 	Panic    any
 	Stack    string
 	CloseAt  time.Duration // first conn.Close / TNC.Close call after it opened, -1: none
+	inRead   bool          // the reader is inside a Read call (false at the end of the run: it was still pausing between reads)
 	broken   bool          // a Write or Flush on it failed: the application stops using it (it still closes it)
 	reader   *core.GoResult
 }
@@ -415,7 +416,9 @@ func (rs *runState) reader(cr *connRec) {
 			cr.MinBuf = sz
 		}
 		buf := make([]byte, sz)
+		cr.inRead = true
 		n, err := cr.conn.Read(buf)
+		cr.inRead = false
 		cr.Reads++
 		if n > 0 && n <= len(buf) {
 			cr.Got = append(cr.Got, buf[:n]...)
@@ -505,7 +508,10 @@ func execC14(t *testing.T, prop string, raw json.RawMessage, trace bool) core.Ou
 		}
 		others = append(others, rs.extra...)
 		rs.mu.Unlock()
-		core.WaitAll(settle, others...)
+		// A reader blocked in Read for good costs nothing to wait for (the fake
+		// clock jumps); one that is still working through its think times is
+		// given the time to finish.
+		core.WaitAll(clientBudget, others...)
 		time.Sleep(settle)
 
 		// ---- judge the quiescent state
